@@ -313,6 +313,8 @@ class EngineB:
             else:
                 ob.status = PROVED
                 ob.detail = f"valid on all {npaths} feasible paths ({I.queries} solver queries)"
+                if I.loop_obligations:
+                    ob.detail += f"; {len(I.loop_obligations)} loop-invariant obligations (entry / preservation) discharged"
         self.rep.extra.setdefault("paths_explored", 0)
         self.rep.extra["paths_explored"] += npaths
         return list(obs.values())
